@@ -603,6 +603,16 @@ fn compile_auxiliary_data(tx: &tir::Tx) -> Result<Option<primitives::AuxiliaryDa
 
     match metadata_kv {
         Ok(key_values) => {
+            // the metadata map keeps one value per label, a second entry under the same label
+            // would silently replace the value of the first one
+            let mut labels = std::collections::BTreeSet::new();
+
+            if !key_values.iter().all(|(key, _)| labels.insert(*key)) {
+                return Err(Error::ConsistencyError(
+                    "more than one metadata entry for the same label".to_string(),
+                ));
+            }
+
             let metadata_tree = pallas::ledger::primitives::alonzo::Metadata::from_iter(key_values);
             if metadata_tree.is_empty() {
                 Ok(None)
